@@ -112,6 +112,12 @@ example : Classify.Matches st0 st0.pos (printNodes e0) := by
   | 0, _ | 1, _ | 2, _ | 3, _ | 4, _ | 5, _ | 6, _ | 7, _ => decide +kernel +revert
 example : (st0.toks.getD (st0.pos + (printNodes e0).length) eofTok).ty ≠ .OPERATOR := by decide +kernel
 
+/-- boundary values of `~` (tests of `pyInvert`, the operand widths 8 / 16 / 32 bits chosen by `bit_length`; negative
+    operands are complemented in the width of their magnitude) -/
+example : pyInvert 0 = some 255 ∧ pyInvert 255 = some 0 ∧ pyInvert 256 = some 65279 ∧ pyInvert 65535 = some 0 ∧
+    pyInvert 65536 = some 4294901759 ∧ pyInvert (-1) = some 0 ∧ pyInvert (-256) = some 255 ∧ pyInvert (-512) = some 511 ∧
+    pyInvert (-300) = some 299 ∧ pyInvert 4294967296 = none := by decide +kernel
+
 /-! ## spacing -/
 open ScanS in
 /-- **blanks between the tokens of an expression do not change what is scanned** (C06 "spacing does not change the result",
